@@ -8,9 +8,20 @@ import (
 	"os"
 	"path/filepath"
 
+	"bytes"
+	"io"
+
+	"github.com/go-faster/yaml"
+	"go.uber.org/zap"
+
 	"github.com/ogen-go/ogen"
 	"github.com/ogen-go/ogen/gen"
 )
+
+var _ *zap.Logger
+var _ io.Reader
+var _ *bytes.Reader
+var _ *yaml.Decoder
 
 //@ use strings
 //@ use errors
@@ -66,3 +77,53 @@ func specBuildFails(data []byte, opts gen.Options) bool {
 //@   ensures untouched: specParseFails(data) || specBuildFails(data, opts) ==> err != nil && vSeqEq(vLogStr("fs"), old(vLogStr("fs")))
 //@   ensures extends:   len(vLogStr("fs")) >= len(old(vLogStr("fs"))) && vSeqEq(vLogStr("fs")[:len(old(vLogStr("fs")))], old(vLogStr("fs")))
 //@   ensures gated:     !clean ==> (forall k in (len(old(vLogStr("fs"))), len(vLogStr("fs"))) :: !hasPrefix(vLogStr("fs")[k], "remove "))
+
+// ---------------------------------------------------------------------------
+// loadConfig: an unreadable configuration is a failure BEFORE anything is generated (run() returns the
+// error before it reaches generate): a configuration file the user named explicitly, or a default
+// one that was found, and that cannot be read makes loadConfig fail; loadConfig never touches the
+// file system log.
+// ---------------------------------------------------------------------------
+
+// firstDefaultCfg: the first of the default configuration names that loadConfig probes.
+const firstDefaultCfg = "ogen" + ".yml"
+
+func cfgReadFails(p string) bool {
+	_, err := os.ReadFile(p)
+	return err != nil
+}
+
+func cfgExists(p string) bool {
+	_, err := os.Stat(p)
+	return err == nil
+}
+
+//@ extern func os.ReadFile(name string) (data []byte, err error)
+//@   pure
+//@ extern func os.Stat(name string) (fi os.FileInfo, err error)
+//@   pure
+
+// Decoding of the configuration text (go-faster/yaml): what Decode stores into the options is NOT
+// modelled (no clause below speaks about the options' content); only its verdict matters.
+//@ extern func bytes.NewReader(b []byte) (r *bytes.Reader)
+//@   pure
+//@ extern func yaml.NewDecoder(r io.Reader) (d *yaml.Decoder)
+//@   pure
+//@   ensures nonnil: d != nil
+//@ extern func (d *yaml.Decoder) KnownFields(enable bool)
+//@ extern func (d *yaml.Decoder) Decode(v interface{}) (err error)
+
+// Logging (go.uber.org/zap) has no effect the contracts talk about.
+//@ extern func zap.String(key string, val string) (f zap.Field)
+//@   pure
+//@ extern func (l *zap.Logger) Debug(msg string, fields ...zap.Field)
+
+//@ func loadConfig(cfgPath string, log *zap.Logger) (opts gen.Options, err error)
+//@   requires logger: log != nil
+//@   loop 0 vars rangeindex int
+//@   loop 0 invariant range: -1 <= rangeindex && rangeindex < 4
+//@   loop 0 invariant first: rangeindex >= 0 ==> !cfgExists(firstDefaultCfg)
+//@   loop 0 decreases 4 - rangeindex
+//@   ensures explicit: cfgPath != "" && cfgReadFails(cfgPath) ==> err != nil
+//@   ensures found:    cfgPath == "" && cfgExists(firstDefaultCfg) && cfgReadFails(firstDefaultCfg) ==> err != nil
+//@   ensures nofs:     vSeqEq(vLogStr("fs"), old(vLogStr("fs")))
